@@ -1,7 +1,7 @@
 CONSTANTS
   Dev = {}
   Alphabet <- AlphaEsc
-  MaxLen = 6
+  MaxLen = 5
   DepthProbe = {0, 256}
 INIT Init
 NEXT Next
